@@ -118,8 +118,13 @@ def span_kind_labels(sp):
 
 
 def instantiate_sub(base, sub, span, shared):
-    cls = make_sub_class(base, sub['nvars'], sub['check'], sub.get('endo', []), sub.get('lags', 0), sub.get('leads', 0))
+    cls = make_sub_class(base, sub['nvars'], sub.get('class_check', sub['check']), sub.get('endo', []), sub.get('lags', 0), sub.get('leads', 0))
     m = cls(span)
+    # instance attributes edited after construction (the linker uses the instance's `check`, the class's LAGS / LEADS)
+    m.__dict__['check'] = ['V%d' % i for i in sub['check']]
+    if 'ilags' in sub:
+        m.__dict__['lags'] = sub['ilags']
+        m.__dict__['leads'] = sub['ileads']
     for i, row in enumerate(sub['vals']):
         m.__dict__['_V%d' % i][:] = [unhex(x) for x in row]
     m.__dict__['_status'][:] = sub['status']
